@@ -1,0 +1,21 @@
+/*
+ * SPDX-License-Identifier: Apache-2.0
+ */
+
+/* verif_sim.h
+
+   Yield points for deterministic simulation. With PISTACHE_VERIF_SIM undefined
+   (the default) PISTACHE_SIM_POINT expands to nothing and this header has no
+   effect. With the guard on, each point calls into a scheduler provided by the
+   simulation harness; a point never changes the behaviour of the code around
+   it, it only lets the harness decide which thread runs next.
+*/
+
+#pragma once
+
+#ifdef PISTACHE_VERIF_SIM
+extern "C" void pistache_sim_point(const char* site, const void* addr);
+#define PISTACHE_SIM_POINT(site, addr) pistache_sim_point((site), (addr))
+#else
+#define PISTACHE_SIM_POINT(site, addr) ((void)0)
+#endif
